@@ -62,6 +62,9 @@ def main():
     finally:
         sh('git -C /repo checkout -- .')
     rc, out = sh('git -C /repo status --short'); assert out.strip() == '', out
+    # refresh the evidence files from the unchanged tree (the mutant runs overwrote them)
+    for p in [prop] + extra:
+        sh(f'./check {p} quick', cwd='/verif', timeout=7200)
     # store
     d = f'/verif/seeded/{prop}-{letter}'
     os.makedirs(d, exist_ok=True)
